@@ -119,6 +119,6 @@ SUBS = [
 
 MANIFEST = {
     "technique": "exhaustive enumeration of small tree shapes + Hypothesis random models; oracle = partition predicate and co-selection over all configurations from an independent brute-force enumerator",
-    "level_text": "Validity predicate over the output (partition, co-selection in every configuration, mandatory chains kept together); exact for tree shapes up to 5/7 features, sampling beyond.",
+    "level_text": "Validity predicate over the output (partition, co-selection in every configuration, mandatory chains kept together); exact for tree shapes up to 5/7 features, sampling beyond. Also: models with groups of up to 300 leaves against the exact always-co-selected classes of a constraint-free tree (cross-checked), constraint-list models, in-place edit histories. A sample of every sub-check additionally runs in a `python -OO` child with the root logger at DEBUG.",
     "level_note": "Trusted: vf/semantics.py, vf/shapes.py.",
 }
